@@ -134,6 +134,9 @@ def check_solve(spec, counters, violations, fault_at=None, persistent=False, tig
         if fault_at is not None and ncalls >= fault_at:
             violations.append(dict(wit, what="C09 solve() returned normally although the action raised at call %d" % fault_at))
     else:
+        if fault_at is None and isinstance(raised, (NameError, AttributeError, TypeError, KeyError, IndexError, UnboundLocalError)):
+            # a solve may fail to converge or violate a limit (RuntimeError / ValueError / LinAlgError), not like this
+            violations.append(dict(wit, what="C09 solve() raised %s: %s" % (type(raised).__name__, str(raised)[:150])))
         counters["solves_failed_restore_checked"] = counters.get("solves_failed_restore_checked", 0) + 1
         counters.setdefault("failure_kinds", {})
         kind = type(raised).__name__ + ":" + str(raised)[:40]
